@@ -46,6 +46,7 @@ def main():
             print(name, "EXTRACTION-FAILED", e)
             return 2
         alarms = {}
+        known = {k["key"] for k in engine.load_known() if k.get("status") == "known"}      # recorded findings are not alarms
         for pr in sorted(p for p in props.PROPS if p.startswith("C")):
             ctx = engine.Ctx(pr, crates)
             R = roles_mod.Roles(ctx)
@@ -54,7 +55,7 @@ def main():
             except Exception as e:
                 alarms[pr] = ["CRASH:%r" % e]
                 continue
-            v = [o for o in ctx.obl if o["status"] == "violation"]
+            v = [o for o in ctx.obl if o["status"] == "violation" and o["key"] not in known]
             if v:
                 alarms[pr] = sorted({"%s@%s:%s" % (o["rule"], o["fn"].split("::")[-1], o["role"]) for o in v})
         print("%-16s %s %s" % (name, "silent" if not alarms else "FALSE-ALARM", json.dumps(alarms) if alarms else ""))
